@@ -13,9 +13,9 @@ from hypothesis.extra import numpy as hnp
 
 from algopy import UTPM
 
-from ..runner import Bucket, Violation, Inconclusive, Rejected, guard, KF
+from ..runner import Bucket, Violation, Inconclusive, guard, KF
 from .. import gen
-from ..oracles import mp_taylor, mp_taylor_multi, FracSeries
+from ..oracles import mp_taylor, mp_taylor_multi
 from . import _c02_ref as ref
 
 PID = 'C02'
